@@ -21,7 +21,7 @@ REQUIRED_THEOREMS = ['CfVerif.C13.' + t for t in (
     'quat_roundtrip', 'quat_model_is_compressR', 'quat_fields_roundtrip', 'quat_errors',
     'coordinate_error_lt_one', 'yaw_error_lt_one', 'start_packs_or_raises', 'element_packs_or_raises',
     'led_rgb565', 'led_monotone', 'led_black_white', 'led_timing_rgb565', 'led_timing_monotone', 'led_timing_black_white',
-    'range_report_decodes', 'range_report_distinct', 'lh_angle_decodes', 'incoming_malformed',
+    'range_report_decodes', 'range_report_distinct', 'range_report_last_wins', 'lh_angle_decodes', 'incoming_malformed',
     'gen_quat_compress', 'gen_quat_decompress', 'gen_trajectory', 'gen_units', 'gen_led', 'gen_incoming', 'gen_lh_angle')]
 EXHAUSTIVE = True      # the half-float decoder and the LED mapping are checked on their whole (finite) domains, every run
 TRUSTED = ['harness/corr/c13.py: the Python->Lean translator (A3) for fp16_to_float / bit expressions, the extractor, the correspondence',
